@@ -59,6 +59,9 @@ def u_time(W, sk):
                 its.append(yv)
                 yv += W.rng.choice([1, 2, 5, 13])
             shift = float(W.rng.choice([-7, 3, 100]))
+            if W.rng.random() < 0.5:
+                its = SL.span_trap_grid(W.rng, n, 1990)
+                n = len(its)
         y = lambda k: float(its[int(k)])
         T = UnevenTimeDim(dim=Dimension(name="Time", letter="t", items=its))
         T2 = UnevenTimeDim(dim=Dimension(name="Time", letter="t", items=[v + shift for v in its]))
@@ -416,6 +419,9 @@ class LM:
             for k in range(n):
                 its.append(yv)
                 yv += rng.choice([1, 2, 3, 6])
+            if rng.random() < 0.3:
+                its = SL.span_trap_grid(rng, n, 2000)
+                n = len(its)
             W.inputs["time_items"] = its
             T = Dimension(name="Time", letter="t", items=its)
             ex = [W.dim(l) for l in EXTRA[:n_extra]]
